@@ -10,7 +10,10 @@ mod s_main;
 mod s_c10;
 mod s_c13;
 mod selftest;
+mod t_c05;
 mod t_c08;
+mod t_c09;
+mod t_c15;
 mod t_c11;
 mod t_c12;
 mod t_c18;
@@ -21,6 +24,10 @@ use report::Report;
 pub fn t_catalogue(prop: &str) -> Option<Vec<tcommon::Scn>> {
   match prop {
     "C08" => Some(t_c08::scenarios()),
+    "C05" => Some(t_c05::scenarios()),
+    "C09" => Some(t_c09::scenarios()),
+    "C15" => Some(t_c15::c15_scenarios()),
+    "C16" => Some(t_c15::c16_scenarios()),
     "C11" => Some(t_c11::scenarios()),
     "C12" => Some(t_c12::scenarios()),
     "C18" => Some(t_c18::scenarios()),
@@ -32,7 +39,15 @@ pub fn t_catalogue(prop: &str) -> Option<Vec<tcommon::Scn>> {
 fn check(prop: &str, tier: &str) -> i32 {
   rxverif_rt::exec::install_quiet_panic_hook();
   match prop {
-    "C08" | "C11" | "C12" | "C18" | "C19" => {
+    "C05" => {
+      // sequential clause (engine S) + cross-thread clause (engine T) in one report
+      let mut r = s_main::check(prop, tier).unwrap();
+      r.engine = "S+T".into();
+      r.assumptions.extend(t_assumptions());
+      tcommon::run_scenarios(&mut r, t_catalogue(prop).unwrap(), tier);
+      report::finish(r)
+    }
+    "C08" | "C09" | "C11" | "C12" | "C15" | "C16" | "C18" | "C19" => {
       let mut r = Report::new(prop, tier, "T");
       r.assumptions = t_assumptions();
       tcommon::run_scenarios(&mut r, t_catalogue(prop).unwrap(), tier);
